@@ -451,3 +451,17 @@ mod tests {
   }
 }
 
+
+// Verification hooks (off unless built with --cfg ellbur_totalmapper_verif):
+// public wrappers around the private unit-text builder and layout writer.
+#[cfg(ellbur_totalmapper_verif)]
+pub mod verif {
+  pub fn build_service_text(excludes: &[&str]) -> String {
+    super::build_service_text(excludes.iter().map(|s| *s))
+  }
+  
+  // Writes /etc/totalmapper.json exactly as add_systemd_service does.
+  pub fn write_layout_to_global_config(layout: &crate::keys::Layout) -> Result<(), String> {
+    super::write_layout_to_global_config(layout)
+  }
+}
